@@ -55,6 +55,97 @@ def plain_calls():
         ('edit_config-identityref', 'default', lambda x, y: ('edit_config', dict(target='running', config='<config xmlns="%s"><i xmlns="urn:i"><type xmlns:ianaift="urn:iana-if-type">ianaift:ethernetCsmacd</type><d>%s</d></i></config>' % (BASE, __import__('xml.sax.saxutils', fromlist=['escape']).escape(x, {'\r': '&#13;'})))), 1),
         ('get-subtree-qname', 'nexus', lambda x, y: ('get', dict(filter=('subtree', '<f xmlns="urn:f" xmlns:if="urn:iface"><t>if:%s</t></f>' % 'eth'))), 0),
     ]
+PNAMES = ['a', 'b', 'rpc', 'get', 'filter', 'config', 'x-y', 'A1', '_u', 'n.m', 'edit-config', 'kill-session']
+ANAMES = ['k', 'type', 'select', 'id', 'message-id', 'x.y', '_z']
+
+
+def plain_tree(rng, depth=0):
+    """Namespace-free element tree (JSON: ['E', name, [[k, v]…], [children…]] | ['T', s]) as the tree API can build it:
+    XML names, distinct attribute names, no empty and no adjacent text nodes; texts and values are nasty strings."""
+    attrs = []
+    for k in rng.sample(ANAMES, rng.choice([0, 0, 1, 2, 3])):
+        attrs.append([k, rng.choice(['', nasty(rng), nasty(rng)])])
+    children = []
+    if depth < 4:
+        for _ in range(rng.choice([0, 1, 1, 2, 3, 5])):
+            if rng.random() < 0.55:
+                children.append(plain_tree(rng, depth + 1))
+            elif not (children and children[-1][0] == 'T'):
+                children.append(['T', nasty(rng)])
+    return ['E', rng.choice(PNAMES), attrs, children]
+
+
+def plain_toks(node):
+    if node[0] == 'T':
+        return ['T', hexs(node[1])]
+    out = ['E', hexs(node[1]), str(len(node[2]))]
+    for k, v in node[2]:
+        out += [hexs(k), hexs(v)]
+    out.append(str(len(node[3])))
+    for c in node[3]:
+        out += plain_toks(c)
+    return out
+
+
+def plain_from_toks(toks, i=0):
+    if toks[i] == 'T':
+        return ['T', unhexs(toks[i + 1])], i + 2
+    name = unhexs(toks[i + 1])
+    na = int(toks[i + 2])
+    i += 3
+    attrs = []
+    for _ in range(na):
+        attrs.append([unhexs(toks[i]), unhexs(toks[i + 1])])
+        i += 2
+    nc = int(toks[i])
+    i += 1
+    ch = []
+    for _ in range(nc):
+        c, i = plain_from_toks(toks, i)
+        ch.append(c)
+    return ['E', name, attrs, ch], i
+
+
+def plain_build(node, ns=None):
+    """Build the tree with ncclient's own constructors: in no namespace (new_ele_ns / sub_ele_ns with ns=None, the
+    shape the Lean model serialises) or in the base namespace (new_ele / sub_ele)."""
+    from ncclient.xml_ import new_ele, sub_ele, new_ele_ns, sub_ele_ns
+
+    def rec(n, parent):
+        if ns is None:
+            el = new_ele_ns(n[1], None, dict(n[2])) if parent is None else sub_ele_ns(parent, n[1], None, dict(n[2]))
+        else:
+            el = new_ele(n[1], dict(n[2])) if parent is None else sub_ele(parent, n[1], dict(n[2]))
+        last = None
+        for c in n[3]:
+            if c[0] == 'T':
+                if last is None:
+                    el.text = c[1]
+                else:
+                    last.tail = c[1]
+            else:
+                last = rec(c, el)
+        return el
+    return rec(node, None)
+
+
+def plain_qualified(node, ns):
+    if node[0] == 'T':
+        return node
+    return ['E', '{%s}%s' % (ns, node[1]), node[2], [plain_qualified(c, ns) for c in node[3]]]
+
+
+def plain_from_etree(el):
+    ch = []
+    if el.text:
+        ch.append(['T', el.text])
+    for c in el:
+        ch.append(plain_from_etree(c))
+        if c.tail:
+            ch.append(['T', c.tail])
+    return ['E', el.tag, [[k, v] for k, v in el.attrib.items()], ch]
+
+
 NS_BINDINGS = {'get-xpath-ns': lambda x, y: [('p', y or 'urn:p')], 'edit_config-identityref': lambda x, y: [('ianaift', 'urn:iana-if-type')],
                'get-subtree-qname': lambda x, y: [('if', 'urn:iface')]}
 if True:
@@ -69,7 +160,8 @@ class C07(Check):
             '(b) 23 call templates instantiated with random nasty strings (markup characters, quotes, CR/LF/TAB, Unicode incl. astral, "]]>", '
             'long) and XML fragments, the request parsed with xml.etree (not lxml) and every string required to come back unaltered exactly '
             'where it belongs; (c) the model\'s escapeText/escapeAttr compared byte for byte with lxml\'s serialisation, and readText/readAttr '
-            'with expat, on random strings. Non-trivial = a sent request carrying at least one caller string; distinct by case.')
+            'with expat, on random strings; (d) random namespace-free trees built with new_ele/sub_ele: to_xml compared byte for byte with the model\'s '
+            'serialize, expat\'s reading compared with the model\'s parseDoc and with the tree that was built (theorem doc_roundtrip). Non-trivial = a sent request carrying at least one caller string; distinct by case.')
     TRUST = ['lxml/libxml2 serialisation is MODELLED (Model/XmlText.lean) and compared with the library on every run, not verified',
              'parametricity: behaviour depends on a caller string only through its position (sampled with concrete strings each run)',
              'the catalogue of argument shapes in harness/gen/optable.py']
@@ -91,6 +183,8 @@ class C07(Check):
             out.append({'kind': 'esc', 's': nasty(rng)})
         for s in NASTY:
             out.append({'kind': 'esc', 's': s})
+        for i in range(n // 2):
+            out.append({'kind': 'doc', 'tree': plain_tree(rng), 'ns': None if i % 3 else BASE})
         return out
 
     def search(self, tier, rng, broken):
@@ -103,6 +197,17 @@ class C07(Check):
             r = self._rows[case['i']]
             return {kk: r.get(kk) for kk in ('op', 'profile', 'shape', 'args', 'capsMode', 'outcome', 'nsent', 'asserted', 'probedMinus', 'outsider',
                                              'rootNs', 'rootName', 'hasMsgId', 'nOps', 'opNs', 'opName', 'params', 'sentinels')}
+        if k == 'doc':
+            from ncclient.xml_ import to_xml, to_ele
+            try:
+                el = plain_build(case['tree'], case.get('ns'))
+            except ValueError as e:
+                return {'unbuildable': repr(e)[:120]}     # a string XML cannot carry (lxml refuses it when the tree is built)
+            ser = to_xml(el)
+            body = ser[ser.index('?>') + 2:] if ser.startswith('<?xml') else ser
+            back = plain_from_etree(ET.fromstring(ser.encode('utf-8')))      # independent reader (expat)
+            again = plain_from_etree(ET.fromstring(to_xml(to_ele(ser)).encode('utf-8')))
+            return {'ser': body, 'back': back, 'again': again}
         if k == 'esc':
             from lxml import etree
             s = case['s']
@@ -152,11 +257,18 @@ class C07(Check):
         if case['kind'] == 'esc':
             s = case['s']
             return ['xt esctext ' + hexs(s), 'xt escattr ' + hexs(s)]
+        if case['kind'] == 'doc' and not case.get('ns'):
+            return ['xd rt ' + ' '.join(plain_toks(case['tree']))]
         return []
 
     def model_obs(self, case, outs):
         if case['kind'] == 'esc':
             return {'esctext': unhexs(outs[0]), 'escattr': unhexs(outs[1])}
+        if case['kind'] == 'doc' and outs:
+            toks = outs[0].split(' ')
+            if len(toks) < 3:
+                return {'bad': outs[0]}
+            return {'wf': toks[0], 'ser': unhexs(toks[1]), 'back': None if toks[2] == 'none' else plain_from_toks(toks[2:])[0]}
         return None
 
     def compare(self, case, io, mo):
@@ -166,6 +278,15 @@ class C07(Check):
             for k in ('esctext', 'escattr'):
                 if io[k] != mo[k]:
                     return '%s of %r: lxml %r, model %r' % (k, case['s'][:40], io[k][:80], mo[k][:80])
+        if case['kind'] == 'doc':
+            if 'unbuildable' in io:
+                return None
+            if mo.get('wf') != '1':
+                return 'generated tree is not well-formed for the model (wf = %s)' % mo.get('wf')
+            if io['ser'] != mo['ser']:
+                return 'serialisation differs: to_xml %r, model %r' % (io['ser'][:200], mo['ser'][:200])
+            if io['back'] != mo['back']:
+                return 'reading differs: expat %r, model parseDoc %r' % (str(io['back'])[:200], str(mo['back'])[:200])
         return None
 
     def extra_lines(self):
@@ -181,6 +302,15 @@ class C07(Check):
         if k == 'esc':
             if io['readtext'] != case['s'] or io['readattr'] != case['s']:
                 return ('C07:escape-roundtrip', 'string %r does not survive serialise + independent parse' % case['s'][:60])
+            return None
+        if k == 'doc':
+            if 'unbuildable' in io:
+                return None
+            want = plain_qualified(case['tree'], case['ns']) if case.get('ns') else case['tree']
+            if io['back'] != want:
+                return ('C07:tree-altered-on-the-wire', 'a tree built with the element constructors and serialised with to_xml is read by an independent parser as a different tree: %r' % (str(io['back'])[:200],))
+            if io['again'] != want:
+                return ('C07:tree-altered-on-the-wire', 'to_xml(to_ele(to_xml(t))) is read as a different tree')
             return None
         name = plain_calls()[case['call']][0]
         if 'parse_error' in io:
@@ -224,6 +354,8 @@ class C07(Check):
             return io['outcome'] == 'sent' and bool(io.get('sentinels'))
         if case['kind'] == 'esc':
             return any(c in case['s'] for c in '<>&"\r\n\t')
+        if case['kind'] == 'doc':
+            return 'ser' in io and any(c in io['ser'] for c in ('&lt;', '&amp;', '&quot;', '&#13;'))
         return io.get('sent') == 1
 
     def extra_coverage(self):
